@@ -679,8 +679,8 @@ func insertAccessNamed(p *packages.Package, f *ast.File, relFile string, vars ma
 	return n
 }
 
-// objField resolves a selector to "Type.field" if it selects a field of a struct type declared in package
-// object through a pointer-typed plain identifier (so that passing the identifier has no side effect).
+// objField resolves a selector to "Type.field" if it selects a field of a struct type declared in a package of the
+// repository through a pointer-typed plain identifier (so that passing the identifier has no side effect).
 func objField(p *packages.Package, sel *ast.SelectorExpr) (string, *ast.Ident, bool) {
 	id, ok := sel.X.(*ast.Ident)
 	if !ok {
@@ -699,11 +699,15 @@ func objField(p *packages.Package, sel *ast.SelectorExpr) (string, *ast.Ident, b
 		return "", nil, false
 	}
 	named, ok := pt.Elem().(*types.Named)
-	if !ok || named.Obj().Pkg() == nil || named.Obj().Pkg().Path() != modPath+"/object" {
+	if !ok || named.Obj().Pkg() == nil || !strings.HasPrefix(named.Obj().Pkg().Path(), modPath+"/") {
 		return "", nil, false
 	}
 	if _, isStruct := named.Underlying().(*types.Struct); !isStruct {
 		return "", nil, false
+	}
+	if named.Obj().Pkg().Path() != modPath+"/object" {
+		// structs of the other packages of the repository (e.g. the evaluator's function wrapper) carry their package name
+		return named.Obj().Pkg().Name() + "." + named.Obj().Name() + "." + sel.Sel.Name, id, true
 	}
 	return named.Obj().Name() + "." + sel.Sel.Name, id, true
 }
